@@ -28,6 +28,12 @@ type overlapCase struct {
 	BObs     *kit.Obs
 	Hang     string
 	Desc     string
+	Probes   []probeRes // uses attempted after B's Close returned and before A was released
+}
+
+type probeRes struct {
+	Tag int
+	Err error
 }
 
 type overlapOpts struct {
@@ -129,6 +135,9 @@ func genOverlap(rt *rapid.T, oo overlapOpts) *overlapCase {
 	if c.A.Ctx == 10 {
 		c.GateKind = kit.GateCtxDone
 	}
+	if c.A.Kind == "close" {
+		c.GateKind = kit.GateCloseEnter
+	}
 	c.GateN = rapid.SampledFrom([]int{1, 1, 1, 2, 3, 4}).Draw(rt, "gaten")
 	// B
 	anc := x.R.Ancestors(atag)
@@ -213,6 +222,33 @@ func (c *overlapCase) run() {
 	if !kit.WaitOrTimeout(bDone, 30*time.Millisecond) {
 		c.BBlocked = true
 	}
+	// B's Close has returned while A is still parked: everything B covers must refuse use already
+	if c.Parked && !c.BBlocked && (c.B.Kind == "close" || c.B.Kind == "pclose") {
+		for _, tag := range x.R.Tags() {
+			rec := x.R.ScopeRecOf(tag)
+			if rec == nil || !rec.Created {
+				continue
+			}
+			covered := c.B.Kind == "pclose"
+			if !covered {
+				for _, a := range x.R.Ancestors(tag) {
+					if a == c.B.Scope {
+						covered = true
+					}
+				}
+			}
+			if !covered {
+				continue
+			}
+			var err error
+			if tag == 0 {
+				_, err = x.R.P.Get(kit.RType(kit.NeverType))
+			} else {
+				_, err = rec.S.Get(kit.RType(kit.NeverType))
+			}
+			c.Probes = append(c.Probes, probeRes{tag, err})
+		}
+	}
 	pk.Release()
 	if !kit.WaitOrTimeout(aDone, 20*time.Second) {
 		c.Hang = "operation A did not return within 20 s after being released"
@@ -258,6 +294,17 @@ func (c *overlapCase) checkOverlapResults(prop string) *Failure {
 			return fail(prop, "no-panic", fmt.Sprintf("%s-vs-%s/gate%d", c.A.Kind, c.B.Kind, c.GateKind), "%s(s%d,%s) panicked: %v", o.Kind, o.Scope, o.Ident, o.Panic)
 		}
 	}
+	for _, pr := range c.Probes {
+		if !kit.IsDisposed(pr.Err) {
+			rel := "self"
+			if c.B.Kind == "pclose" {
+				rel = "via-provider"
+			} else if pr.Tag != c.B.Scope {
+				rel = "descendant"
+			}
+			return fail(prop, "closed-after-return", rel, "%s returned while %s was still in flight, yet scope s%d still accepts resolutions (got %v, want the disposed error)", c.B, c.A, pr.Tag, firstLine(pr.Err))
+		}
+	}
 	for _, o := range []*kit.Obs{c.AObs, c.BObs} {
 		if o == nil {
 			continue
@@ -266,6 +313,9 @@ func (c *overlapCase) checkOverlapResults(prop string) *Failure {
 		case "resolve":
 			if o.Err == nil {
 				for _, e := range o.Entries {
+					if e == nil && x.M.NilOutput(o.Ident) {
+						continue
+					}
 					if e == nil {
 						return fail(prop, "complete-result", "nil", "%s(s%d,%s) returned a nil/foreign value", o.Kind, o.Scope, o.Ident)
 					}
@@ -273,7 +323,7 @@ func (c *overlapCase) checkOverlapResults(prop string) *Failure {
 						return fail(prop, "complete-result", "half-built", "%s(s%d,%s) returned %v whose constructor had not completed", o.Kind, o.Scope, o.Ident, e)
 					}
 				}
-			} else if _, registered := x.M.Owner(o.Ident); (registered || o.Ident.Group != "") && !kit.IsDisposed(o.Err) {
+			} else if _, registered := x.M.Owner(o.Ident); (registered || o.Ident.Group != "") && !kit.IsDisposed(o.Err) && !x.M.NilOutput(o.Ident) {
 				if !bIsClose {
 					return fail(prop, "documented-error", kit.Classify(o.Err), "%s(s%d,%s) failed with %v although nothing was being closed", o.Kind, o.Scope, o.Ident, firstLine(o.Err))
 				}
@@ -361,10 +411,10 @@ func TestC10Schedules(t *testing.T) {
 // ---- C13: an operation overlapping a Close completes or reports disposed ----
 
 func TestC13Schedules(t *testing.T) {
-	oo := overlapOpts{Gen: kit.FullOpts(), AKinds: []string{"get", "get", "create", "create-gatectx"}, BKinds: []string{"close", "close-ancestor", "pclose", "cancel"},
-		GateKind: allGates}
+	oo := overlapOpts{Gen: dispOpts(), AKinds: []string{"get", "get", "create", "create-gatectx", "close", "close"}, BKinds: []string{"close", "close-ancestor", "pclose", "cancel"},
+		GateKind: allGates, ExtraWarm: 3}
 	runOverlapTest(t, "C13", "controlled-schedules",
-		"controlled two-thread programs: thread A issues Get*/CreateScope and is parked at the n-th constructor entry/exit it reaches (initializers included) or inside ctx.Done() of the context handed to CreateScope; thread B runs one Close (A's scope, an ancestor, the provider) or a context cancellation to completion; A is released; oracle: no panic, no hang (20 s), A returns fully constructed values or an error satisfying errors.Is(ErrScopeDisposed/ErrProviderDisposed); non-trivial = A was parked",
+		"controlled two-thread programs: thread A issues Get*/CreateScope and is parked at the n-th constructor entry/exit it reaches (initializers included) or inside ctx.Done() of the context handed to CreateScope; or A closes a scope and is parked inside an instance's Close(); thread B runs one Close (A's scope, an ancestor, the provider) or a context cancellation to completion or until it blocks; if B's Close returned while A is still parked, every scope it covers is probed and must already refuse use; A is released; oracle: no panic, no hang (20 s), A returns fully constructed values or an error satisfying errors.Is(ErrScopeDisposed/ErrProviderDisposed), probes report the disposed error; non-trivial = A was parked",
 		oo,
 		func(c *overlapCase) *Failure { return c.checkOverlapResults("C13") },
 		func(c *overlapCase) bool { return true })
